@@ -39,6 +39,7 @@ fn _link() {
     let _ = diplomat_runtime::diplomat_buffer_write_create as usize;
 }
 
+const CHAR_BYTES: [&[u8]; 2] = [b"x", "\u{e9}".as_bytes()];
 pub const CHUNKS: [&str; 7] = ["", "a", "bc", "\u{e9}", "\u{20ac}", "\u{1d11e}", "123456789"];
 const GUARD: usize = 32;
 const CANARY: u8 = 0xC5;
@@ -64,8 +65,11 @@ pub enum Op {
     Write(u8, Ans),
     /// write!() with two chunks in one formatting call: "{}{}"
     Fmt2(u8, u8, Ans),
+    /// a single char through fmt::Write::write_char (what `{}` of a char, fill characters and Formatter::write_char use)
+    Char(u8, Ans),
     Flush,
 }
+pub const CHARS: [char; 2] = ['x', '\u{e9}'];
 
 /// Guarded allocation: [GUARD canary][n bytes FILL][GUARD canary]
 struct Guarded {
@@ -270,6 +274,14 @@ pub fn execute(kind: Kind, cap0: usize, hist: &[Op]) -> (RefModel, Option<String
                     violation = Some(format!("op {i}: write! returned Err"));
                 }
             }
+            Op::Char(c, ans) => {
+                env!().next_answer = ans;
+                let ch = CHARS[c as usize];
+                chunks.push(CHAR_BYTES[c as usize]);
+                if w.write_char(ch).is_err() {
+                    violation = Some(format!("op {i}: write_char returned Err"));
+                }
+            }
             Op::Flush => {
                 model.flushes += 1;
                 w.flush();
@@ -444,6 +456,14 @@ impl Model for WriteModel {
                     continue;
                 }
                 out.push(Op::Write(c, a));
+            }
+        }
+        for c in 0..CHARS.len() as u8 {
+            for &a in answers {
+                if a == Ans::Fail && s.nfail >= self.max_fail {
+                    continue;
+                }
+                out.push(Op::Char(c, a));
             }
         }
         if self.fmt2 {
